@@ -298,6 +298,46 @@ func (v *Verifier) external(st *State, in *ssa.Call, fn *ssa.Function, args []*T
 			}
 			return set(v.mkSlice(st, SString, []*Term{args[0]}))
 		}
+	case "strings.Compare":
+		if allLit(args...) {
+			return set(IntLit(int64(strings.Compare(args[0].Str, args[1].Str))))
+		}
+		return set(Ite(mk("str.<", SBool, args[0], args[1]), IntLit(-1), Ite(Eq(args[0], args[1]), IntLit(0), IntLit(1))))
+	case "slices.SortFunc":
+		// x is rearranged: afterwards it holds the elements it held (each position takes its element from some
+		// position of the old contents) and every neighbouring pair is in order according to cmp. cmp must be a known
+		// function value with a contract; its precondition is demanded of every pair of elements.
+		if args[1].IsInt() {
+			id := args[1].Int64()
+			x := args[0]
+			es := sortOf(elemType(in.Common().Args[0].Type()))
+			as := ArraySort(SInt, es)
+			h := st.getHeap(as)
+			ref, off, n := Sel(x, 0), Sel(x, 1), Sel(x, 2)
+			old := Select(h, ref)
+			i, j := BVar("i$sort", SInt), BVar("j$sort", SInt)
+			csig := closures[id].fn.Signature
+			if len(closures[id].bindings) == 0 && csig.Params().Len() == 2 {
+				inR := func(t *Term) *Term { return And(Le(IntLit(0), t), Lt(t, n)) }
+				pre, _, ok := v.closureFacts(st, id, []*Term{Select(old, Add(off, i)), Select(old, Add(off, j))}, fvApp(IntLit(id), []*Term{Select(old, Add(off, i)), Select(old, Add(off, j))}, csig))
+				if ok {
+					v.safety(st, in, "sortcmp-pre", Forall([]*Term{i}, Forall([]*Term{j}, Implies(And(inR(i), inR(j)), pre))))
+					nw := Fresh("sorted", as)
+					regexNext++
+					perm := fmt.Sprintf("sortperm%d", regexNext)
+					pi := App(perm, SInt, i)
+					st.assume(Forall([]*Term{i}, Implies(inR(i), And(inR(pi), Eq(Select(nw, Add(off, i)), Select(old, Add(off, pi)))))))
+					st.assume(Forall([]*Term{i}, Implies(Not(inR(Sub(i, off))), Eq(Select(nw, i), Select(old, i)))))
+					a, b := Select(nw, Add(off, i)), Select(nw, Add(off, Add(i, IntLit(1))))
+					res := fvApp(IntLit(id), []*Term{a, b}, csig)
+					st.setHeap(as, Store(h, ref, nw))
+					_, post, _ := v.closureFacts(st, id, []*Term{a, b}, res)
+					st.assume(Forall([]*Term{i}, Implies(And(Le(IntLit(0), i), Lt(Add(i, IntLit(1)), n)), And(post, Le(res, IntLit(0))))))
+					v.assumeNote("slices.SortFunc: the result is a rearrangement of the input in which every neighbouring pair is in order according to the comparator's contract (assumed)")
+					return set()
+				}
+			}
+		}
 	case "unicode.IsSpace":
 		if args[0].IsInt() {
 			return set(BoolLit(unicode.IsSpace(rune(args[0].Int64()))))
